@@ -2577,7 +2577,10 @@ namespace bloch::runtime {
 
             bool lIsBool = l.type == Value::Type::Boolean;
             bool rIsBool = r.type == Value::Type::Boolean;
-            if (lIsBool || rIsBool) {
+            // String concatenation accepts any operand, including booleans.
+            bool isStringConcat = bin->op == "+" && (l.type == Value::Type::String ||
+                                                     r.type == Value::Type::String);
+            if ((lIsBool || rIsBool) && !isStringConcat) {
                 auto toBool = [&](const Value& v) -> bool {
                     if (v.type == Value::Type::Boolean)
                         return v.boolValue;
